@@ -356,13 +356,21 @@ func (fs FacetSpec) request(e encoding, idx int) *bleve.FacetRequest {
 	default:
 		fr := bleve.NewFacetRequest("d", fs.Size)
 		for _, r := range fs.Ranges {
+			// an open end is sometimes written as a far sentinel date (year 1600 / 9999), as
+			// applications do; every indexed date lies between them, so the bucket is the same
+			farLo, farHi := time.Date(1600, 1, 1, 0, 0, 0, 0, time.UTC), time.Date(9999, 12, 31, 0, 0, 0, 0, time.UTC)
+			sentinel := (idx+r.ID)%3 == 2
 			if (idx+r.ID)%2 == 0 { // time.Time API
 				var lo, hi time.Time
 				if r.HasLo {
 					lo = e.date(r.Lo)
+				} else if sentinel {
+					lo = farLo
 				}
 				if r.HasHi {
 					hi = e.date(r.Hi)
+				} else if sentinel {
+					hi = farHi
 				}
 				fr.AddDateTimeRange(rangeName(r.ID), lo, hi)
 			} else { // string API (default date time parser)
@@ -370,9 +378,15 @@ func (fs FacetSpec) request(e encoding, idx int) *bleve.FacetRequest {
 				if r.HasLo {
 					s := e.date(r.Lo).Format(time.RFC3339Nano)
 					lo = &s
+				} else if sentinel {
+					s := farLo.Format(time.RFC3339Nano)
+					lo = &s
 				}
 				if r.HasHi {
 					s := e.date(r.Hi).Format(time.RFC3339Nano)
+					hi = &s
+				} else if sentinel {
+					s := farHi.Format(time.RFC3339Nano)
 					hi = &s
 				}
 				fr.AddDateTimeRangeString(rangeName(r.ID), lo, hi)
